@@ -54,6 +54,10 @@ C22_BREAKS = {
 }
 # proposed repairs (monkeypatched inside the driver child): the named witness key of the unchanged tree must disappear,
 # every other key must stay (attribution of the mechanisms is independent)
+C22_DIRECTED_FIXES = {  # judged on the in-process directed part (hand-built tests through the real visitors)
+    "PROPOSED_FIX_protect-dotted-sources": ["asserted-statement-lost:iterative-forward:dotted-source-unprotected",
+                                            "asserted-statement-lost:iterative-backward:dotted-source-unprotected"],
+}
 C22_FIXES = {
     "PROPOSED_FIX_remove-unused-keeps-asserted": ["asserted-statement-lost:remove_unused_variables"],
     "PROPOSED_FIX_combined-protection": ["asserted-statement-lost:combined-ignores-protection"],
@@ -133,6 +137,30 @@ def c21_in_process(brk):
     return {}, [f"child died rc={cp.returncode}: {cp.stderr[-500:]}"]
 
 
+def c22_directed_child(brk):
+    import os
+
+    if brk != "-":
+        os.environ["VERIF_BREAK"] = brk
+    c22 = importlib.import_module("checks.c22_minimization_coverage")
+    ctx = core.Ctx("C22", "selftest", 0)
+    ctx.scratch = core.make_scratch("pynverif-selftest-")
+    try:
+        c22.directed_visitors(ctx)
+    finally:
+        shutil.rmtree(ctx.scratch, ignore_errors=True)
+    print("KEYS " + json.dumps(keys_of(ctx)))
+
+
+def c22_directed(brk):
+    cp = subprocess.run([core.PY, str(pathlib.Path(__file__).resolve()), "--c22-child", brk or "-"], env=core.child_env(), capture_output=True,
+                        text=True, timeout=900, cwd=str(VERIF))
+    for line in cp.stdout.splitlines():
+        if line.startswith("KEYS "):
+            return json.loads(line[5:]), []
+    return {}, [f"child died rc={cp.returncode}: {cp.stderr[-500:]}"]
+
+
 def judge(name, brk, got, baseline, expected, incon):
     new = {k: v for k, v in got.items() if k not in baseline}
     hit = [k for k in new if any(k.startswith(p) for p in expected)]
@@ -159,6 +187,10 @@ def main(argv):
                     jobs[("c21", "pipe", b)] = ex.submit(run_pipeline_part, "checks.c21_assertion_minimization", C21_RUNS, b)
         if any(s.startswith("c22") for s in sel):
             jobs[("c22", "pipe", None)] = ex.submit(run_pipeline_part, "checks.c22_minimization_coverage", C22_RUNS, None)
+            jobs[("c22", "in", None)] = ex.submit(c22_directed, None)
+            for b in C22_DIRECTED_FIXES:
+                if wanted("c22", b):
+                    jobs[("c22", "in", b)] = ex.submit(c22_directed, b)
             for b in list(C22_BREAKS) + list(C22_FIXES):
                 if wanted("c22", b):
                     jobs[("c22", "pipe", b)] = ex.submit(run_pipeline_part, "checks.c22_minimization_coverage", C22_RUNS, b)
@@ -174,10 +206,11 @@ def main(argv):
             print(f"[{check}/{part}] unchanged tree: keys {json.dumps(got)}" + (f"  inconclusive: {incon[:2]}" if incon else ""))
             continue
         baseline = results[(check, part, None)][0]
-        if check == "c22" and brk in C22_FIXES:
-            gone = [k for k in C22_FIXES[brk] if k in baseline and k not in got]
-            others_kept = all(k in got for k in baseline if k not in C22_FIXES[brk])
-            good = len(gone) == len(C22_FIXES[brk]) and others_kept
+        fixes = {**C22_FIXES, **C22_DIRECTED_FIXES}
+        if check == "c22" and brk in fixes:
+            gone = [k for k in fixes[brk] if k in baseline and k not in got]
+            others_kept = all(k in got for k in baseline if k not in fixes[brk])
+            good = len(gone) == len(fixes[brk]) and others_kept
             print(f"[{check}/{part}] fix   {brk:38s} {'KEY GONE' if good else 'NOT EFFECTIVE'}  keys now: {json.dumps(got)}")
             ok &= good
             continue
@@ -190,5 +223,7 @@ def main(argv):
 if __name__ == "__main__":
     if len(sys.argv) == 3 and sys.argv[1] == "--c21-child":
         c21_in_process_child(sys.argv[2])
+    elif len(sys.argv) == 3 and sys.argv[1] == "--c22-child":
+        c22_directed_child(sys.argv[2])
     else:
         sys.exit(main(sys.argv[1:]))
